@@ -19,6 +19,17 @@
    "block"  B, grp (block matrix, see Phylo); obs = [oc, flat] with flat = the returned tree as list of
             <<kids, lens>> (Phylo!Flat), changed
 
+   "hist"   t, mirror, other; histories of read-only calls (Phylo!TreeCalls) and of in-place edits of the
+            container handed out last (Phylo!ScrOps), each on a fresh Tree object built from t:
+              vals    the distinct results of calls: [op, oc ("ok" / "Rejected"), v]
+              probes  the distinct answers to the probe asked after every step:
+                      [n = len(tree), byIndex = [leaf.index for leaf in tree.leaves], order = root.get_indices(),
+                       dist = get_distance(i, j) for all i, j]     (n = -1: the probe raised an exception)
+              hists   <<<<op, position in vals (0 for a scribble), position in probes>>, ...>> per history
+            (the tables only avoid repeating equal values: every value that was observed is in them)
+   "labels" t, labels (token sequences, Phylo!Dom_Labels); obs = trees parsed back from
+            to_newick(labels) / from_newick(.., labels): dist, noDist (include_distance=False), blanks
+
    PrintT(<<"MISMATCH", tid, l, flags, expected>>) for disagreements,
    PrintT(<<"DIAG", tid, l, what>>) for differences that carry no verdict. *)
 EXTENDS Phylo, Json, IOUtils
@@ -36,7 +47,7 @@ MatrixEq(obs, exp(_, _), n) == \A i, j \in 1..n : REq(obs[i][j], exp(i - 1, j - 
 
 \* TLC re-evaluates a LET definition that depends on the state at every use; values bound by a
 \* quantifier over a singleton set are computed once -- hence the \E x \in {expr} idiom below.
-JudgeTreeWith(e, t, inf, uinf, pNw, pNoDist, pLabels, pBlanks, pBinary, pCopy) ==
+JudgeTreeWith(e, t, inf, uinf, zinf, ctz, pNw, pNoDist, pLabels, pBlanks, pBinary, pCopy) ==
   LET o == e.obs
       n == Len(LeafList(t))
       okDomain == Dom_Tree(t)
@@ -46,11 +57,12 @@ JudgeTreeWith(e, t, inf, uinf, pNw, pNoDist, pLabels, pBlanks, pBinary, pCopy) =
       okLca    == \A i, j \in 1..n : ToSet(o.lca[i][j]) = inf.lca[<<i - 1, j - 1>>]
       \* Newick: topology and every leaf-to-leaf distance survive (labels, blanks); without
       \* distances the topology survives
-      NwOK(p) == SameTopology(p, t) /\ SameLeafDistances(p, t)
+      \* (inf = Info(t), zinf = Info(ZeroLens(t)), ctz = CanonTree(ZeroLens(t)): evaluated once per event)
+      NwOK(p) == TopologyIs(p, ctz) /\ LeafDistancesAre(p, inf)          \* = SameTopology(p, t) /\ SameLeafDistances(p, t)
       okNewick == NwOK(pNw) /\ NwOK(pLabels) /\ NwOK(pBlanks)
-      okNoDist == SameTopology(pNoDist, t) /\ SameLeafDistances(pNoDist, ZeroLens(t))
-      okBinary == IsBinary(pBinary) /\ SameLeafDistances(pBinary, t) /\ Len(LeafList(pBinary)) = n
-      okCopy   == SameTopology(pCopy, t) /\ SameLeafDistances(pCopy, t)
+      okNoDist == TopologyIs(pNoDist, ctz) /\ LeafDistancesAre(pNoDist, zinf)
+      okBinary == IsBinary(pBinary) /\ LeafDistancesAre(pBinary, inf) /\ Len(LeafList(pBinary)) = n
+      okCopy   == NwOK(pCopy)
       \* the tree answers the same after to_newick / as_binary / copy / == were called on it
       okAfter  == o.leavesAfter = LeafList(t) /\ MatrixEq(o.distAfter, LAMBDA i, j : inf.pd[<<i, j>>], n)
       okEq     == /\ o.eqCopy /\ o.hashCopy
@@ -68,9 +80,10 @@ JudgeTreeWith(e, t, inf, uinf, pNw, pNoDist, pLabels, pBlanks, pBinary, pCopy) =
 
 JudgeTree(e) ==
   \E t \in {TreeOf(e.t)} : \E inf \in {Info(t)} : \E uinf \in {Info(UnitLens(t))} :
+  \E zinf \in {Info(ZeroLens(t))} : \E ctz \in {CanonTree(ZeroLens(t))} :
   \E pNw \in {TreeOf(e.obs.nw)} : \E pNoDist \in {TreeOf(e.obs.nwNoDist)} : \E pLabels \in {TreeOf(e.obs.nwLabels)} :
   \E pBlanks \in {TreeOf(e.obs.nwBlanks)} : \E pBinary \in {TreeOf(e.obs.binary)} : \E pCopy \in {TreeOf(e.obs.copy)} :
-    JudgeTreeWith(e, t, inf, uinf, pNw, pNoDist, pLabels, pBlanks, pBinary, pCopy)
+    JudgeTreeWith(e, t, inf, uinf, zinf, ctz, pNw, pNoDist, pLabels, pBlanks, pBinary, pCopy)
 
 \* <<outcome, every index one leaf, postcondition>> of one call, from what was observed
 UpgmaFlagsWith(D, o, dom, p) ==
@@ -123,8 +136,87 @@ JudgeBlock(e) ==
     /\ PrintT(<<"BLOCK", tid, l + 1, exact, IF exact THEN WRun(e.B, GroupSizes(e.grp, Len(e.B))).crit ELSE 0>>)
     /\ IF AllTrue(f) THEN TRUE ELSE PrintT(<<"MISMATCH", tid, l + 1, f, [exact |-> exact]>>)
 
+\* ---- histories of read-only calls and scribbles on one Tree object
+\* is the recorded result v of the call op what the specification says for the tree t (whatever happened before)?
+ValOK(e, t, inf, uinf, zinf, ctz, tab, subs, op, v) ==
+  LET n == Len(LeafList(t))
+      NwOK(p) == TopologyIs(p, ctz) /\ LeafDistancesAre(p, inf)
+      Same(p) == LeafList(p) = LeafList(t) /\ NwOK(p)
+  IN CASE op = "len"        -> v = n
+       [] op = "leaves"     -> v = OwnList(t)
+       [] op = "walk"       -> v[2] /\ \E p \in {TreeOf(v[1])} : Same(p)
+       [] op = "dist"       -> Len(v) = n /\ MatrixEq(v, LAMBDA i, j : inf.pd[<<i, j>>], n)
+       [] op = "topo"       -> Len(v) = n /\ \A i, j \in 1..n : v[i][j] = uinf.pd[<<i - 1, j - 1>>][1]
+       [] op = "lca"        -> Len(v) = n /\ \A i, j \in 1..n : ToSet(v[i][j]) = inf.lca[<<i - 1, j - 1>>]
+       [] op = "nodeDist"   -> /\ Len(v[1]) = Len(tab) /\ Len(v[2]) = Len(tab)
+                               /\ \A a, b \in DOMAIN tab : /\ REq(v[1][a][b], NodeDistDecl(tab, a, b))
+                                                           /\ v[2][a][b] = LcaDecl(tab, a, b)
+       [] op = "rootPath"   -> Len(v) = n /\ \A i \in 1..n : /\ REq(RSum(v[i]), inf.dep[i - 1])
+                                                            /\ Len(v[i]) = DepthCount(tab, LeafRow(tab, i - 1)) - 1
+       [] op \in {"getLeaves", "getIndices"} -> v = [q \in DOMAIN subs |-> LeafList(subs[q])]
+       [] op = "leafCount"  -> v = [q \in DOMAIN subs |-> Len(LeafList(subs[q]))]
+       [] op \in {"newick", "newickLabels"} -> \E p \in {TreeOf(v)} : NwOK(p)
+       [] op = "newickNoDist" -> \E p \in {TreeOf(v)} : TopologyIs(p, ctz) /\ LeafDistancesAre(p, zinf)
+       [] op = "str"        -> (\E p \in {TreeOf(v[1])} : NwOK(p)) /\ (\E p \in {TreeOf(v[2])} : NwOK(p))
+       [] op \in {"copy", "nodeCopy"} -> v[2] /\ \E p \in {TreeOf(v[1])} : NwOK(p)
+       [] op = "eqHash"     -> /\ v[1] /\ v[2] /\ v[3] = SameTree(t, TreeOf(e.mirror)) /\ (v[3] => v[4])
+                               /\ v[5] = SameTree(t, TreeOf(e.other)) /\ v[6]
+       [] op = "binary"     -> \E p \in {TreeOf(v)} : IsBinary(p) /\ LeafDistancesAre(p, inf) /\ Len(LeafList(p)) = n
+       [] OTHER             -> TRUE                       \* "repr", "iter", "graph": no statement about the result
+\* calls the statement says nothing about may also refuse
+NoVerdict(op) == op \in {"repr", "iter", "graph"}
+ProbeOK(exp, p) ==
+  /\ p.n = exp.n /\ p.byIndex = exp.byIndex /\ p.order = exp.order /\ Len(p.dist) = exp.n
+  /\ \A i, j \in 1..exp.n : REq(p.dist[i][j], exp.dist[i][j])
+GraphOK(t, v) == ToSet([q \in DOMAIN v |-> <<ZeroLens(TreeOf(v[q][1])), ZeroLens(TreeOf(v[q][2])), <<v[q][3][1], v[q][3][2]>> >>]) = GraphEdges(t)
+
+JudgeHistWith(e, t, inf, uinf, zinf, ctz, tab, subs, exp) ==
+  \E okVal \in {TLCEval([k \in DOMAIN e.vals |->
+                   IF e.vals[k][2] = "ok" THEN ValOK(e, t, inf, uinf, zinf, ctz, tab, subs, e.vals[k][1], e.vals[k][3])
+                   ELSE NoVerdict(e.vals[k][1])])} :
+  \E okProbe \in {TLCEval([k \in DOMAIN e.probes |-> ProbeOK(exp, e.probes[k])])} :
+  \E runs \in {TLCEval([h \in DOMAIN e.hists |-> ObjRun(t, [s \in DOMAIN e.hists[h] |-> e.hists[h][s][1]])])} :
+  LET okDomain == Dom_Tree(t)
+      \* every step is a call or an enabled scribble, refers to the tables, and - the object model - the
+      \* tree's own list is untouched at the end of the history, so the expected probe is the initial one
+      okHists  == \A h \in DOMAIN e.hists :
+                    /\ runs[h][1] /\ runs[h][2].cells[1] = exp.byIndex
+                    /\ \A s \in DOMAIN e.hists[h] :
+                         LET st == e.hists[h][s] IN
+                         /\ st[1] \in TreeOps /\ st[3] \in DOMAIN e.probes
+                         /\ IF st[1] \in ScrOps THEN st[2] = 0 ELSE st[2] \in DOMAIN e.vals /\ e.vals[st[2]][1] = st[1]
+      okVals   == \A k \in DOMAIN okVal : okVal[k]
+      okProbes == \A k \in DOMAIN okProbe : okProbe[k]
+      flags == <<okDomain, okHists, okVals, okProbes>>
+  IN /\ IF \A k \in DOMAIN e.vals : (e.vals[k][1] = "graph" => e.vals[k][2] = "ok" /\ GraphOK(t, e.vals[k][3])) THEN TRUE
+        ELSE PrintT(<<"DIAG", tid, l + 1, "as_graph">>)
+     /\ IF okDomain /\ okHists /\ okVals /\ okProbes THEN TRUE
+        ELSE PrintT(<<"MISMATCH", tid, l + 1, flags,
+                      [badVals |-> {k \in DOMAIN okVal : ~okVal[k]}, badProbes |-> {k \in DOMAIN okProbe : ~okProbe[k]},
+                       probe |-> exp]>>)
+JudgeHist(e) ==
+  \E t \in {TreeOf(e.t)} : \E inf \in {Info(t)} : \E uinf \in {Info(UnitLens(t))} : \E tab \in {PP(t)} :
+  \E zinf \in {Info(ZeroLens(t))} : \E ctz \in {CanonTree(ZeroLens(t))} :
+  \E subs \in {Subtrees(t)} : \E exp \in {ProbeWith(t, inf.pd, OwnList(t))} :
+    JudgeHistWith(e, t, inf, uinf, zinf, ctz, tab, subs, exp)
+
+\* ---- Newick with a list of labels: the leaf written as labels[i] is read back as i
+JudgeLabels(e) ==
+  \E t \in {TreeOf(e.t)} : \E pDist \in {TreeOf(e.obs.dist)} : \E pNoDist \in {TreeOf(e.obs.noDist)} :
+  \E pBlanks \in {TreeOf(e.obs.blanks)} : \E inf \in {Info(t)} : \E ctz \in {CanonTree(ZeroLens(t))} :
+  LET n == Len(LeafList(t))
+      okDomain == Dom_Tree(t) /\ Dom_Labels(e.labels, n)
+                  /\ \A i \in 0..(n - 1) : LeafIndex(LeafText(i, e.labels), e.labels) = i
+      NwOK(p) == TopologyIs(p, ctz) /\ LeafDistancesAre(p, inf)
+      flags == <<okDomain, NwOK(pDist) /\ NwOK(pBlanks),
+                 TopologyIs(pNoDist, ctz) /\ LeafDistancesAre(pNoDist, Info(ZeroLens(t)))>>
+  IN IF AllTrue(flags) THEN TRUE
+     ELSE PrintT(<<"MISMATCH", tid, l + 1, flags, [leaves |-> LeafList(t), blank |-> HasBlank(e.labels)]>>)
+
 Judge(e) ==
   CASE e.op = "tree"  -> JudgeTree(e)
+    [] e.op = "hist"  -> JudgeHist(e)
+    [] e.op = "labels" -> JudgeLabels(e)
     [] e.op = "upgma" -> JudgeUpgma(e)
     [] e.op = "nj"    -> JudgeNj(e)
     [] e.op = "session" -> JudgeSession(e)
